@@ -103,6 +103,8 @@ func kbContext(name string) []byte {
 		return []byte(name) // placeholder; the Ed25519 driver substitutes a searched context (edRareContext)
 	case "long":
 		return []byte(strings.Repeat("context-", 40))
+	case "ctxB": // a context that STARTS WITH A ZERO BYTE - as the protocol's own contexts do (0x0003 || "ClientBlind")
+		return append([]byte{0x00, 0x03}, []byte("ClientBlind")...)
 	}
 	return []byte(name)
 }
@@ -456,6 +458,8 @@ func edBlindBytes(seed int64, name string) []byte {
 		for i := range b {
 			b[i] = 0xff
 		}
+	case "bzero": // 32 zero bytes: a blind like any other (its factor is the hash of 32 zero bytes, a zero byte and the context)
+		b = make([]byte, 32)
 	}
 	// exact capacity: the blinding functions must not be given room to scribble
 	// (that they do is property C16, not C15)
@@ -611,7 +615,7 @@ func execKeyBlindEd(c *ctx, in ev) []ev {
 
 func genKeyBlind(c *ctx, emit func(ev)) {
 	r := newRand(c.seed, "keyblind")
-	blinds := []string{"b1", "b2", "b3", "b4", "lead0", "geN", "one"}
+	blinds := []string{"b1", "b2", "b3", "b4", "lead0", "geN", "one", "bzero"}
 	ctxs := []string{"", "ctxA", "ctxB", "long"}
 	digests := []string{"d0", "d1", "d2", "dlong", "dlong0", "dlongf", "dord", "dord0", "dord+1", "dff", "dffo"}
 	sks := []string{"s1", "s2", "s3"}
